@@ -21,6 +21,8 @@ def build(tier, seed):
         # immediate expected reward (not reward + gamma * initial estimate of the successor)
         spec = gen.gen_spec(rng, smax=9 if tier == "quick" else 20, A=A, kind=rng.choice(["random", "unichain"]), denom=4, R=rng.choice([1, 5, 10]),
                             adim=2, initpol=(i % 3 == 0), init=(True if i % 3 == 1 else None))
+        if i % 3 == 0:
+            spec["via"] = ["variant", "mixin", "own", "variant"][(i // 3) % 4]      # the supplied initial policy reaches the solver through an inherited / mixed-in method
         if i % 3 == 1 and spec.get("init"):
             spec["init"] = [4.0 * v for v in spec["init"]]      # large against the rewards, so that it would change the one-step greedy choice
         S = spec_size(spec)
